@@ -50,6 +50,12 @@ CLAIMED = {
         technique="contract-based: run-time contracts with a statement-derived oracle on seeded random segment tables "
                   "(bounded stand-in); deductive obligations where listed in evidence",
         design_ref="8 (C14)"),
+    "C20": dict(
+        category="other",
+        text="Run-time contracts (bounded stand-in) on the real export_bed (three show modes), segments2vcf (one record per non-neutral segment; POS, END, SVTYPE/ALT, SVLEN sign, CN for gains), write_seg (1-based starts under each sample ID, chromosome renumbering), merge_samples+fmt_cdt/fmt_jtv over real files (one row per bin, one column per sample, refusal of mismatching bins and duplicate IDs) and export_nexus_basic, with the expected-copies table of C01 (cls_of / Xcopies) as oracle.",
+        note="deductive kernels are listed in evidence when present (the reference/expected copies used by bed/vcf are proved under C01)",
+        technique="contract-based: run-time contracts with statement-derived oracles on seeded random segment tables and files (bounded stand-in); deductive obligations where listed in evidence",
+        design_ref="8 (C20)"),
     "C19": dict(
         category="other",
         text="Deductive: _width2wing (window half-width always in [1, n-1]) discharged by SMT for all lengths and widths. "
